@@ -39,7 +39,8 @@ class Item:
             return "%sconst int %s = %d;\n" % (e, n, p[0])
         if self.kind == "struct":
             return ("%sstruct %s { int x; int y; };\n%sinterface I%s { int area%s(); }\n%simpl I%s for %s {\n    int area%s() { return self.x * self.y + %d; }\n}\n"
-                    % (e, n, e, n, n, e, n, n, n, p[0]))
+                    "%svoid set%s(%s* q, int v) {\n    q->x = v;\n}\n"
+                    % (e, n, e, n, n, e, n, n, n, p[0], e, n, n))
         if self.kind == "enum":
             return "%senum %s { A%s, B%s, C%s };\n" % (e, n, n, n, n)
         if self.kind == "typedef":
@@ -52,7 +53,9 @@ class Item:
         if self.kind == "const":
             return "    println(\"%s\", %s);\n" % (n, n)
         if self.kind == "struct":
-            return "    %s v%d;\n    v%d.x = %d;\n    v%d.y = 3;\n    println(\"%s\", v%d.x, v%d.area%s());\n" % (n, k, k, k + 2, k, n, k, k, n)
+            return ("    %s v%d;\n    v%d.x = %d;\n    v%d.y = 3;\n    println(\"%s\", v%d.x, v%d.area%s());\n" % (n, k, k, k + 2, k, n, k, k, n) +
+                    "    %s* pv%d = &v%d;\n    pv%d->y = %d;\n    set%s(&v%d, %d);\n    println(\"%s\", v%d.x, v%d.y, pv%d->x, v%d.area%s());\n" % (
+                        n, k, k, k, k + 5, n, k, k + 20, n, k, k, k, k, n))
         if self.kind == "enum":
             return "    %s v%d = %s::B%s;\n    println(\"%s\", v%d);\n" % (n, k, n, n, n, k)
         if self.kind == "typedef":
